@@ -13,7 +13,7 @@
 From Coq Require Import ZArith List Znumtheory Lia.
 From PySnark.Base Require Import FieldZ.
 From PySnark.Model Require Import Lc Sym Gadgets Api Prog.
-From PySnark.Proofs Require Import Sound Meta FieldOk ProgOK Complete.
+From PySnark.Proofs Require Import Sound Meta FieldOk ProgOK Complete Adv AdvGadgets.
 Import ListNotations.
 Open Scope Z_scope.
 
@@ -57,7 +57,22 @@ Example C07_example :
   forallb noign pr = true /\ raised (model_run (p:=65537) {| bitlength := 3%nat; resolution := 0 |} pr [0; 100; 7] false) = None.
 Proof. vm_compute. split; reflexivity. Qed.
 
+(* transparent, at the level of the emitted constraints: inside a region whose guard wire evaluates to 1, the constraints a
+   gadget emits (v*w = y+d, g*d = 0 for a fresh dummy d) force exactly what the unguarded constraints force -- e.g. the sign
+   test behind <, <=, >, >=, abs; the same holds for every C02_model_* / C03_model_* / C16 theorem, whose hypothesis [Gok]
+   covers both cases *)
+Theorem C07_true_guard_transparent_for_gadgets : forall (p : Z), prime p -> forall (w : var -> Z), w 0 = 1 ->
+  forall (s : @Gadgets.gst p) g x k r s' cs, guard s = Some g -> feq p (AdvGadgets.ew w g) 1 ->
+  run (check_positive x k) s = (inl r, s', cs) -> Forall (holds (p:=p) w) (cons_of cs) ->
+  (feq p (AdvGadgets.ew w r) 1 /\ exists v, 0 <= v < 2 ^ Z.of_nat k /\ feq p (AdvGadgets.ew w x) v) \/
+  (feq p (AdvGadgets.ew w r) 0 /\ exists v, - 2 ^ Z.of_nat k <= v < 0 /\ feq p (AdvGadgets.ew w x) v).
+Proof.
+  intros p Hp w W0 s g x k r s' cs Hg Eg R H. apply (check_positive_forced Hp w W0 s) with (s' := s') (cs := cs); auto.
+  unfold AdvGadgets.Gok. rewrite Hg. exact Eg.
+Qed.
+
 Print Assumptions C07_true_guard_transparent.
 Print Assumptions C07_guarded_code_keeps_the_system_satisfied.
+Print Assumptions C07_true_guard_transparent_for_gadgets.
 Print Assumptions C07_false_guard_inert.
 Print Assumptions C07_region_flag.
